@@ -699,6 +699,11 @@ func c17Huge(w *W, r *rand.Rand, isS bool) {
 	pos := func(n int) int {
 		return []int{n - 1, n - 1, maxI(n-2, 0), maxI(n-3, 0), maxI(n-1-r.Intn(1+n/1000+3), 0), n / 2, 0, r.Intn(n)}[r.Intn(8)]
 	}
+	if r.Intn(2) == 0 {
+		// the caller's buffers of that size, refilled in place between evaluations
+		c17Refill(w, r, []int{1024, 1500, 4096, 5001}[r.Intn(4)], []int{120, 1024, 3000}[r.Intn(3)], isS)
+		w.Inc("huge_refills")
+	}
 	for round := 0; round < 3; round++ {
 		order := r.Intn(3)
 		a := mkList(r, la, 1000, isS, order, false)
